@@ -6,11 +6,15 @@
    appends it unless it is listed already (so the list has no repetition and
    keeps the order of first use), inside maths it leaves the list alone, and
    a declared name is never put on the list by that step; the list is empty
-   when a document starts.  Not proved: that no other step of the expander
+   when a document starts.  End to end through the main loop, for every
+   token list of plain text, undeclared control words, comments and braces:
+   the list grows by exactly the undeclared names, once each, in order of
+   first use (C19_plain_text_with_unknown_macros).  Not proved: that no other step of the expander
    changes the list, and which uses the expander reaches (comments, skipped
    regions); compared with the implementation and decided by the oracle of
    harness/props/c19.py on every case of the parser stream. *)
-From YV Require Import PyBase Token PState Parser Expand Exec ExpandSites.
+From Coq Require Import String.
+From YV Require Import PyBase Token PState Parser Expand Exec ExpandSites ExecPlain ExecUnk Catalogue.
 Open Scope Z_scope.
 
 Theorem C19_add_once_in_order : forall l name,
@@ -36,6 +40,41 @@ Theorem C19_declared_macro_not_listed : forall T rd rec fuel st buf t math mac,
   expand_arguments T rd rec fuel st (skip_space buf) mac (pos t).
 Proof. exact expand_macro_declared. Qed.
 Print Assumptions C19_declared_macro_not_listed.
+
+(* end to end for documents of plain text, undeclared control words,
+   comments and grouping braces: the main loop returns the state with the
+   names added in order (add_unknown adds a name once), declarations
+   untouched, and the text of the words in the output *)
+Theorem C19_plain_text_with_unknown_macros : forall rd fuel toks st st' out,
+  Forall (ucls py_tables (macros st)) toks ->
+  exec py_tables rd fuel (TSeq toks None []) st = Ok (st', ASeq out []) ->
+  nst py_tables out = nst py_tables (plains toks) /\
+  unknowns st' = fold_left add_unknown (names toks) (unknowns st) /\
+  macros st' = macros st.
+Proof.
+  exact (fun rd fuel toks st st' out =>
+           exec_unknowns_text py_tables rd (eq_refl true) (fun c => eq_refl) fuel toks st st' out
+                              (eq_refl true)).
+Qed.
+Print Assumptions C19_plain_text_with_unknown_macros.
+
+Theorem C19_list_once_in_order : forall nl l,
+  NoDup l -> NoDup (fold_left add_unknown nl l) /\
+  (forall x, In x (fold_left add_unknown nl l) <-> In x l \/ In x nl) /\
+  exists r, fold_left add_unknown nl l = l ++ r.
+Proof. exact fold_add_unknown_nodup. Qed.
+Print Assumptions C19_list_once_in_order.
+
+(* a document of the class, run through the main loop *)
+Example C19_class_example :
+  let toks := fst (Scanner.scan (t_scan py_tables) (s2l "a \foo b % c
+{d} \bar \foo")) in
+  match exec py_tables (fun _ => None) 100 (TSeq toks None [])
+             (init_state py_tables (s2l "en") false false true) with
+  | Ok (st', ASeq out _) => Some (unknowns st', fst (Utils.get_txt_pos out))
+  | _ => None end
+  = Some ([s2l "\foo"; s2l "\bar"], s2l "a b d ").
+Proof. vm_compute. reflexivity. Qed.
 
 Example C19_nonvacuous :
   add_unknown (add_unknown (add_unknown [] [92; 97]%N) [92; 98]%N) [92; 97]%N
